@@ -7,15 +7,12 @@
   whole run raise): the theorems are therefore about runs that return — `loopRefinement_ok_iff` says
   exactly when that is, pixel by pixel, so that a crop of a map on which the run returns also returns.
 -/
+import PandoraModel.Model.PipelineRun
 import PandoraModel.Properties.C13Util
 import PandoraModel.Model.Refinement
 
 namespace Pandora.C13
 open Pandora Pandora.Locality Pandora.Refinement
-
-/-- a nested list (rows of cells) seen as a partial image; rows may have different lengths -/
-def gridImg {α : Type} (g : List (List α)) : Img α := fun p =>
-  if 0 ≤ p.1 ∧ 0 ≤ p.2 then (g[p.1.toNat]?).bind (fun row => row[p.2.toNat]?) else none
 
 def Res.toOption {α : Type} : Res α → Option α
   | .ok y => some y
